@@ -80,33 +80,33 @@ TWO = ["CO_SSDO_N=2", "SDO_DS2=1000"]
 PROPS["C02"] = {
     "level": "model_checking",
     "technique": "deviation-bounded exhaustive enumeration of conforming download clients (all modes, size indications, last-segment fills, lost-segment placements, two-server interleavings) against the real server with the reference server in lockstep",
-    "text": 'Every conforming download dialogue of the enumerated space is executed against the real server (real 889-byte buffer): domain sizes 1..30, 7k+-1 up to 71, 885..900, 1777..1780, 2000, 3999, 4000 (quick: 28 of them) x payload length {S, S-1, 1, S+1} x {expedited s=1/s=0, segmented, block} x size announced or not, position-dependent payload; block mode additionally with every placement of <=1 (quick) / <=2 (thorough) lost segment transmissions followed by the prescribed retransmission; integers direct/referenced/node-id-relative with lengths size-1..size+1; two servers: every interleaving of a scripted transfer on the second server with a segmented or block transfer on the first. Oracle: reference server in lockstep (every response field CiA 301 fixes) plus end-to-end comparison of the object bytes, untouched tail and refusal of over-long payloads.',
+    "text": 'Every conforming download dialogue of the enumerated space is executed against the real server (real 889-byte buffer): domain sizes 1..30, 7k+-1 up to 71, 885..900, 1777..1780, 2000, 3999, 4000 (quick: 28 of them) x payload length {S, S-1, 1, S+1} x {expedited s=1/s=0, segmented, block} x size announced or not, position-dependent payload; block mode additionally with every placement of <=1 (quick) / <=2 (thorough) lost segment transmissions followed by the prescribed retransmission; integers direct/referenced/node-id-relative with lengths size-1..size+1; two servers: every interleaving of a scripted transfer on the second server with a segmented or block transfer on the first; non-initial states: the dialogues (11 sizes quick / the size list up to 900 thorough, lengths S and S-1, all modes, block mode with every single lost transmission for S <= 100) are repeated after an earlier transfer to the same object - segmented or block download, segmented or block upload - that the client completed or abandoned with a client abort after k = 1..4 (quick) / 1..7 (thorough) requests. Oracle: reference server in lockstep (every response field CiA 301 fixes) plus end-to-end comparison of the object bytes, untouched tail and refusal of over-long payloads.',
     "note": 'losing the final segment of a block is not recoverable by a conforming client and is excluded; for 4000-byte transfers the second loss is placed in the neighbourhood of the first and at block boundaries',
     "jobs": {
-        "quick": [J("c02", 0, defs=REAL4K, deadline=120), J("c02", 1, defs=REAL4K), J("c02", 2, defs=TWO, deadline=120)],
-        "thorough": [J("c02", 0, defs=REAL4K, deadline=1500), J("c02", 1, defs=REAL4K), J("c02", 2, defs=TWO, deadline=900)],
+        "quick": [J("c02", 0, defs=REAL4K, deadline=120), J("c02", 1, defs=REAL4K), J("c02", 2, defs=TWO, deadline=120), J("c02", 3, defs=REAL4K, deadline=120)],
+        "thorough": [J("c02", 0, defs=REAL4K, deadline=1500), J("c02", 1, defs=REAL4K), J("c02", 2, defs=TWO, deadline=900), J("c02", 3, defs=REAL4K, deadline=900)],
     },
 }
 
 PROPS["C03"] = {
     "level": "model_checking",
     "technique": "deviation-bounded exhaustive enumeration of conforming upload clients (segmented; block with every block size, every acknowledge position per block, block size changes) against the real server with the reference server in lockstep",
-    "text": 'Every conforming upload dialogue of the enumerated space runs against the real server: domains and strings of the C02 size list with two contents each, integers and fixed strings; segmented/expedited as the server chooses; block mode with every block size 1..127 (sizes <= 200; {1,2,3,7,63,64,126,127} above) and, per block, every acknowledge position k in 0..sent combined with a block size change in {1,2,b-1,b+1,127} - one deviation per transfer (quick) or two (thorough, sizes <= 200); each transfer is run twice back-to-back. Oracle: reference server in lockstep (sequence numbers, last flag, n, announced size, data per segment) plus end-to-end comparison of the assembled bytes and length.',
+    "text": 'Every conforming upload dialogue of the enumerated space runs against the real server: domains and strings of the C02 size list with two contents each, integers and fixed strings; segmented/expedited as the server chooses; block mode with every block size 1..127 (sizes <= 200; {1,2,3,7,63,64,126,127} above) and, per block, every acknowledge position k in 0..sent combined with a block size change in {1,2,b-1,b+1,127} - one deviation per transfer (quick) or two (thorough, sizes <= 200); each transfer is run twice back-to-back; non-initial states: uploads (segmented, block sizes {1,2,3,7,127}, first block acknowledged fully / not at all / partly) repeated after an earlier transfer - segmented or block download to another object, segmented or block upload of the same object - that the client completed or abandoned with a client abort after k = 1..4 (quick) / 1..7 (thorough) requests. Oracle: reference server in lockstep (sequence numbers, last flag, n, announced size, data per segment) plus end-to-end comparison of the assembled bytes and length.',
     "note": 'deviations are placed in the first 64 blocks of a transfer; quick tier uses boundary acknowledge positions for objects > 200 bytes',
     "jobs": {
-        "quick": [J("c03", c, defs=REAL4K, deadline=150) for c in range(3, 17)] + [J("c03", 2, defs=REAL4K)],
-        "thorough": [J("c03", c, defs=REAL4K, deadline=1500) for c in range(3, 17)] + [J("c03", 2, defs=REAL4K)],
+        "quick": [J("c03", c, defs=REAL4K, deadline=150) for c in range(3, 17)] + [J("c03", 2, defs=REAL4K), J("c03", 17, defs=REAL4K, deadline=150)],
+        "thorough": [J("c03", c, defs=REAL4K, deadline=1500) for c in range(3, 17)] + [J("c03", 2, defs=REAL4K), J("c03", 17, defs=REAL4K, deadline=900)],
     },
 }
 
 PROPS["C09"] = {
     "level": "model_checking",
     "technique": "explicit-state BFS to a fixpoint over NMT commands, API mode changes and one probe frame per service, against a reference CiA 301 slave state machine with a per-state gating table",
-    "text": "Node with one of every service (SDO server, asynchronous RPDO, event and synchronous TPDO, SYNC consumer, heartbeat producer and consumer, EMCY, LSS). Alphabet: NMT command specifiers {1,2,128,129,130,0,3,127,255} x target {own id, 0, other}; CONmtSetMode, CONodeStart, CONmtReset(node/com), CONodeStop; probe frames for SDO, RPDO, SYNC, heartbeat of a monitored and an unmonitored node, LSS switch/inquire, a foreign identifier and the node's own transmit identifiers; COEmcySet/Clr, COTPdoTrigPdo, tick. After every step: node mode, the sequence of mode-change callbacks, the reset-request callback, the number and content of boot-up frames, which service reacted (frames per identifier, mapped object, PDO callback), and how often the frame was handed to the application callback are compared with the reference. The reachable state set is closed (fixpoint) for node ids 1, 5 and 127, started and unstarted.",
+    "text": "Node with one of every service (SDO server, asynchronous RPDO, event and synchronous TPDO, SYNC consumer, heartbeat producer and consumer, EMCY, LSS). Alphabet: NMT command specifiers {1,2,128,129,130,0,3,127,255} x target {own id, 0, other}; CONmtSetMode, CONodeStart, CONmtReset(node/com), CONodeStop; probe frames for SDO, RPDO, SYNC, heartbeat of a monitored and an unmonitored node, LSS switch/inquire, a foreign identifier and the node's own transmit identifiers; COEmcySet/Clr, COTPdoTrigPdo, tick. After every step: node mode, the sequence of mode-change callbacks, the reset-request callback, the number and content of boot-up frames, which service reacted (frames per identifier, mapped object, PDO callback), and how often the frame was handed to the application callback are compared with the reference. The reachable state set is closed (fixpoint) for node ids 1, 5 and 127, started and unstarted. A fifth configuration replaces the heartbeat services by a TPDO that lives on timers (event time 3 ticks, inhibit time 2 ticks, application trigger): its frames may appear only while the reference FSM is OPERATIONAL, whichever timer or trigger path produces them.",
     "note": "heartbeat timing is not compared here (C10), only content and at most one per tick; in STOPPED the delivery of unclaimed frames to the application is unconstrained as the statement says; after CONodeStop only safety is judged; NMT frames carry DLC 2",
     "jobs": {
-        "quick": [J("c09", c, depth=80, deadline=120) for c in range(4)],
-        "thorough": [J("c09", c, depth=80, deadline=600) for c in range(4)],
+        "quick": [J("c09", c, depth=80, deadline=120) for c in range(5)],
+        "thorough": [J("c09", c, depth=80, deadline=600) for c in range(5)],
     },
 }
 
@@ -160,12 +160,12 @@ PROPS["C16"] = {
 
 PROPS["C12"] = {
     "level": "model_checking",
-    "technique": "explicit-state BFS over triggers, value changes, SYNCs, ticks, NMT changes and parameter writes against a reference TPDO model (36 parameter configurations) + exhaustive sweep over all mapping compositions",
-    "text": "(a) 54 configurations (the last 18 with two event-driven TPDOs, the CiA 301 re-mapping procedure of TPDO0 to 1 or 3 objects while OPERATIONAL and a changed asynchronous object of TPDO1 as additional events): TPDO0 event-driven (type 254/255) x inhibit {0,2,3 ticks} x event time {0,3,4 ticks}, mapped to an asynchronous 8-bit and a 16-bit object; TPDO1 synchronous of type {1,2,3,240}; started in PRE-OP or OPERATIONAL. 21 events: COTPdoTrigPdo, COTPdoTrigObj, dictionary write of the asynchronous object with a changed / an unchanged value, write of the other mapped object, SYNC, tick, NMT start/pre-op/stop/reset communication, SDO writes to 1800h:1 (invalidate/re-validate), :2, :3, :5. Per step the sequence of TPDO frames (identifier, DLC, data) and the COPdoTransmit calls must equal the reference model: only in OPERATIONAL with a valid COB-ID, immediate transmission on a trigger unless the inhibit time runs, exactly one transmission at the end of the inhibit time for any number of triggers, event-timer transmissions exactly one event time after the last transmission, ties inhibit-first, type n on every n-th SYNC. (b) all 223 ordered compositions of 1..8 mapped objects of 1/2/3/4 bytes (<= 8 bytes) x two value patterns: frame == little-endian concatenation, DLC == mapped bytes.",
+    "technique": "explicit-state BFS over triggers, value changes, SYNCs, ticks, NMT changes and parameter writes against a reference TPDO model (60 parameter configurations) + exhaustive sweep over all mapping compositions",
+    "text": "(a) 60 configurations (36..53 with two event-driven TPDOs, the CiA 301 re-mapping procedure of TPDO0 to 1 or 3 objects while OPERATIONAL and a changed asynchronous object of TPDO1 as additional events; 54..59 with both TPDOs living on inhibit/event timers of their own - (inhibit,event) pairs (3,2|2,0) (3,2|0,3) (0,3|0,4) (2,4|3,3) (0,3|2,0) (3,0|2,2) ticks, i.e. event time shorter than inhibit time, expiries that do not transmit, timer ids handed from one TPDO to the other): TPDO0 event-driven (type 254/255) x inhibit {0,2,3 ticks} x event time {0,3,4 ticks}, mapped to an asynchronous 8-bit and a 16-bit object; TPDO1 synchronous of type {1,2,3,240}; started in PRE-OP or OPERATIONAL. 21 events: COTPdoTrigPdo, COTPdoTrigObj, dictionary write of the asynchronous object with a changed / an unchanged value, write of the other mapped object, SYNC, tick, NMT start/pre-op/stop/reset communication, SDO writes to 1800h:1 (invalidate/re-validate), :2, :3, :5. Per step the TPDO frames (identifier, DLC, data; in order per identifier, the order among different TPDOs within one step being unspecified) and the COPdoTransmit calls must equal the reference model: only in OPERATIONAL with a valid COB-ID, immediate transmission on a trigger unless the inhibit time runs, exactly one transmission at the end of the inhibit time for any number of triggers, event-timer transmissions exactly one event time after the last transmission, ties inhibit-first, type n on every n-th SYNC. (b) all 223 ordered compositions of 1..8 mapped objects of 1/2/3/4 bytes (<= 8 bytes) x two value patterns: frame == little-endian concatenation, DLC == mapped bytes.",
     "note": "a write to 18xxh:5 while the inhibit time runs ends the inhibit time and sends a waiting transmission (the behaviour the repository's unit test pins down); explicit triggers of the synchronous TPDO and inhibit on synchronous TPDOs are outside the statement and not in the alphabet; depth-bounded",
     "jobs": {
-        "quick": [J("c12", c, depth=7, deadline=100, allow_dead=True) for c in range(54)] + [J("c12map")],
-        "thorough": [J("c12", c, depth=10, deadline=1200, max_states=20000000, allow_dead=True) for c in range(54)] + [J("c12map")],
+        "quick": [J("c12", c, depth=7, deadline=100, allow_dead=True) for c in range(60)] + [J("c12map")],
+        "thorough": [J("c12", c, depth=10, deadline=1200, max_states=20000000, allow_dead=True) for c in range(60)] + [J("c12map")],
     },
 }
 
